@@ -27,7 +27,7 @@ func (e *engine) newFnCtx(fn *ssa.Function, blk *block, name string) *fnCtx {
 		ifaces: map[string]*types.Interface{}, heapSort: map[string]string{}, boxes: map[string]string{},
 		params: map[string]Val{}, closures: map[string]*closureInfo{}, prov: map[string]string{}, siteN: map[string]int{},
 		trusted: map[string]bool{}, anchorsHit: map[*clause]int{}, loopsOf: map[*ssa.BasicBlock]int{}, theories: map[string]bool{},
-		rangeOf: map[*ssa.Range]*rangeInfo{}, selIdx: map[*ssa.Select]string{}, sitePos: map[string][]token.Pos{}, linearCells: map[*ssa.Alloc]bool{}, allocFacts: map[string]bool{}, callOf: map[string]string{}, aliasOf: map[string]Val{}, aliasCell: map[*ssa.Alloc]Val{}, freshRefs: map[string]bool{}, frozenTag: map[string]*types.Map{}, frozenNow: map[string]bool{}, modsOf: map[*ssa.BasicBlock]modSet{},
+		rangeOf: map[*ssa.Range]*rangeInfo{}, selIdx: map[*ssa.Select]string{}, sitePos: map[string][]token.Pos{}, linearCells: map[*ssa.Alloc]bool{}, allocFacts: map[string]bool{}, unmappedClauses: map[*clause]bool{}, callOf: map[string]string{}, aliasOf: map[string]Val{}, aliasCell: map[*ssa.Alloc]Val{}, freshRefs: map[string]bool{}, frozenTag: map[string]*types.Map{}, frozenNow: map[string]bool{}, modsOf: map[*ssa.BasicBlock]modSet{},
 	}
 	return fc
 }
@@ -104,7 +104,7 @@ func (e *engine) verifyFunc(fn *ssa.Function, blk *block) (res *fnResult) {
 	}
 	var reqs []string
 	for _, c := range blk.byKind("requires") {
-		t := fc.evalFormula(c.f, ev)
+		t, _ := fc.evalOwn(c, ev, "requires")
 		reqs = append(reqs, t)
 		fc.assume(st, t)
 	}
@@ -116,7 +116,10 @@ func (e *engine) verifyFunc(fn *ssa.Function, blk *block) (res *fnResult) {
 		}
 	}
 	for _, c := range blk.byKind("ghost") {
-		t := fc.evalFormula(c.f, ev)
+		t, ok := fc.evalOwn(c, ev, "ghost")
+		if !ok {
+			t = fc.fresh("g!"+sanitize(c.gname), c.gsort)
+		}
 		st.ghost[c.gname] = Val{T: fc.def(c.gsort, t), S: c.gsort}
 	}
 	fc.entry = st.clone()
@@ -157,7 +160,9 @@ func (e *engine) verifyFunc(fn *ssa.Function, blk *block) (res *fnResult) {
 	res.theories = sortedKeys(fc.theories)
 	res.spawns = fc.spawns
 	for _, o := range fc.obligs {
-		o.query = fc.buildQuery(o)
+		if !o.prebaked {
+			o.query = fc.buildQuery(o)
+		}
 	}
 	return res
 }
@@ -200,7 +205,10 @@ func (fc *fnCtx) visitedOfLoop(h *ssa.BasicBlock) string {
 func (fc *fnCtx) assertInv(h *ssa.BasicBlock, ord int, st *state, kind string) {
 	ev := &evalCtx{cur: st, old: fc.entry, bind: fc.params, visited: fc.visitedOfLoop(h)}
 	for i, c := range fc.invClauses(ord) {
-		t := fc.evalFormula(c.f, ev)
+		t, ok := fc.evalOwn(c, ev, fmt.Sprintf("loop%d.inv", ord))
+		if !ok {
+			continue
+		}
 		var pos token.Pos
 		if len(h.Instrs) > 0 {
 			pos = h.Instrs[0].Pos()
@@ -272,7 +280,9 @@ func (fc *fnCtx) loopHead(h *ssa.BasicBlock, ord int, st *state) *state {
 	st.pc = pc
 	ev := &evalCtx{cur: st, old: fc.entry, bind: fc.params, visited: fc.visitedOfLoop(h)}
 	for _, c := range fc.invClauses(ord) {
-		fc.assume(st, fc.evalFormula(c.f, ev))
+		if t, ok := fc.evalOwn(c, ev, fmt.Sprintf("loop%d.inv", ord)); ok {
+			fc.assume(st, t)
+		}
 	}
 	return st
 }
@@ -596,13 +606,19 @@ func (fc *fnCtx) execReturn(st *state, r *ssa.Return) {
 	fc.runAnchors(st, "return", func(string) bool { return true }, 0, bind, false, "true", r.Pos())
 	ev := &evalCtx{cur: st, old: fc.entry, bind: bind}
 	for i, c := range fc.blk.byKind("ensures") {
-		o := fc.assert(st, "post", "post."+c.name(i), fc.evalFormula(c.f, ev), c.src, r.Pos())
+		t, ok := fc.evalOwn(c, ev, "ensures")
+		if !ok {
+			continue
+		}
+		o := fc.assert(st, "post", "post."+c.name(i), t, c.src, r.Pos())
 		if len(c.props) > 0 {
 			o.props = c.props
 		}
 	}
 	for i, c := range fc.blk.byKind("exit") {
-		fc.assert(st, "post", "exit."+c.name(i), fc.evalFormula(c.f, ev), c.src, r.Pos())
+		if t, ok := fc.evalOwn(c, ev, "exit"); ok {
+			fc.assert(st, "post", "exit."+c.name(i), t, c.src, r.Pos())
+		}
 	}
 	for _, ib := range fc.implBlocks {
 		for i, c := range ib.byKind("ensures") {
@@ -898,4 +914,32 @@ func (fc *fnCtx) inlineCall(st *state, callee *ssa.Function, args []Val) []Val {
 	*st = *merged
 	st.defers = savedDefers
 	return vals
+}
+
+// evalOwn evaluates a clause of the function's own contract.  A hole that names something that no
+// longer exists in the function (a renamed or removed local, field or parameter) means the clause
+// binds to nothing: that is reported once as a failed `unmapped` obligation (vacuity guard i) and the
+// clause is skipped, instead of making the whole function undecidable.
+func (fc *fnCtx) evalOwn(c *clause, ev *evalCtx, what string) (t string, ok bool) {
+	defer func() {
+		if r := recover(); r != nil {
+			u, isU := r.(unsupported)
+			if !isU || !(strings.Contains(u.msg, "unknown name") || strings.Contains(u.msg, "no field") || strings.Contains(u.msg, "is declared") || strings.Contains(u.msg, "unbound")) {
+				panic(r)
+			}
+			if !fc.unmappedClauses[c] {
+				fc.unmappedClauses[c] = true
+				o := &oblig{name: fc.name + "/unmapped." + what + "." + c.name(0), kind: "unmapped", fn: fc.name, goal: "false", result: "sat", solver: "structural",
+					clause: c.src, model: "the clause cannot be bound to the current code: " + u.msg, trivial: false}
+				if fc.blk != nil {
+					o.props = fc.blk.props
+				}
+				o.pos = fmt.Sprintf("%s:%d", fc.blk.file, c.line)
+				o.prebaked = true
+				fc.obligs = append(fc.obligs, o)
+			}
+			t, ok = "true", false
+		}
+	}()
+	return fc.evalFormula(c.f, ev), true
 }
